@@ -362,6 +362,7 @@ fn diverging_returns(v: u8, handler: u64) -> &'static str {
         }
         if pid == 0 {
             std::panic::set_hook(Box::new(|_| libc::_exit(42)));
+            deliver::kick(5); // alarms are not inherited: a stub that spins ends the child with exit code 72
             let req = Request {
                 handler,
                 has_err: hw_error_code(v),
